@@ -391,7 +391,10 @@ def cond_programs(draw):
             body.append(['wait', draw(st.sampled_from([0.25, 0.5, 1]))])
         routines[f'a{i}'] = {'body': body}
         top.append(['play', f'a{i}', 'sys', 0])
-    return {'clocks': clocks, 'routines': routines, 'top': top, 'tail': 0}
+    return {'clocks': clocks, 'routines': routines, 'top': top, 'tail': 0,
+            'cond_kinds': [draw(st.sampled_from(
+                ['bool', 'bool', 'func', 'method', 'partial', 'callable']))
+                for _ in range(2)]}
 
 
 def run_cond(p, v):
@@ -434,6 +437,7 @@ def run_cond(p, v):
     labels = ['two_waiters'] if multi else []
     if any(r.get('nest') for r in p['routines'].values()):
         labels.append('nested_waiter')
+    labels += ['test_is_' + k for k in set(p.get('cond_kinds', []))]
     if any(x[0] == 'rebind_refused' for x in exp):
         labels.append('rebind')
     return {'nontrivial': multi, 'labels': labels}
